@@ -496,6 +496,10 @@ def random_dep(r) -> dict:
         if h["coro"]:
             h["veto"] = False
             h["refresh"] = NOREFRESH
+    # several plain Write handlers on one element, the vetoing one first: the others are invoked all the same
+    for h in list(hs):
+        if not h["coro"] and h["ev"] == "W" and r.random() < 0.5:
+            hs.append({**h, "veto": False})
     # several coroutine handlers on the same event of the same element (each is a task of its own)
     for h in list(hs):
         if h["coro"] and h["ev"] in ("W", "C") and r.random() < 0.5:
@@ -650,6 +654,17 @@ def switch_traces(tier: str) -> List[dict]:
                         for op in ops:
                             if op["o"] == "setvalue" or (op["o"] == "new" and len(op["ch"]) <= 2):
                                 out.append(run_trace(dep, lambda w, op=op: [op]))
+                        if n <= 2:
+                            # a Change handler on the switch (it fires iff the STORED value changed - the rule may force a
+                            # requested Off back to On), and a second, non-vetoing Write handler behind the vetoing one
+                            for hs in ([{"v": 1, "e": ve, "ev": "C", "coro": False, "veto": False, "refresh": NOREFRESH}],
+                                       [{"v": 1, "e": ve, "ev": "W", "coro": False, "veto": True, "refresh": NOREFRESH},
+                                        {"v": 1, "e": ve, "ev": "W", "coro": False, "veto": False, "refresh": NOREFRESH}]):
+                                dep2 = switch_dep(rule, n, list(ini))
+                                dep2["hs"] = hs
+                                for op in ops:
+                                    if op["o"] in ("assign", "setvalue") or (op["o"] == "new" and len(op["ch"]) == 1):
+                                        out.append(run_trace(dep2, lambda w, op=op: [op]))
     return out
 
 
